@@ -6,7 +6,7 @@ CONSTANTS
   MaxSwitches = 2
   Words = {"english", "frog", "about", "a-propos", "users", "x", "42"}
 SPECIFICATION MCSpec
-INVARIANTS ReadsBack EmitCases
-PROPERTIES RoundTrip KeepsShape
+INVARIANTS ReadsBack MatchedAsCurrent EmitCases
+PROPERTIES RoundTrip KeepsShape RouteStable
 VIEW NoTrail
 CHECK_DEADLOCK FALSE
